@@ -11,6 +11,7 @@
 #include "c20_ctor.inc"
 #include "c20_calls2.inc"
 #include "c20_ret.inc"
+#include "c20_lang.inc"
 
 using namespace c20;
 
@@ -212,6 +213,12 @@ bool c20::run_part1(std::string const& op, Toks& in, Out& impl, Out& ref)
         op_refwf<StdLib>(ac, ref);
         return true;
     }
+    if (op == "ipfmem") {
+        auto x = in.num();
+        op_ipfmem<EtlLib>(x, impl);
+        op_ipfmem<StdLib>(x, ref);
+        return true;
+    }
     if (op == "wctor") {
         int fc = i(), a1 = i(), a2 = i();
         op_wctor<EtlLib>(fc, a1, a2, impl);
@@ -281,6 +288,12 @@ bool c20::run_part1(std::string const& op, Toks& in, Out& impl, Out& ref)
 bool c20::run_part2(std::string const& op, Toks& in, Out& impl, Out& ref)
 {
     auto i = [&] { return static_cast<int>(in.num()); };
+    if (op == "lang") {
+        std::string rule = in.str();
+        int x = i(), y = i();
+        lang::op_lang(rule, x, y, impl);
+        return true; // the compiler is the reference: reference and spec legs are na
+    }
     if (op == "catx") {
         auto spec = in.list();
         op_catx<EtlLib>(spec, impl);
